@@ -393,8 +393,13 @@ func (tx *Transaction) AddRequestHeader(key string, value string) {
 	switch keyl {
 	case "content-type":
 		val := strings.ToLower(value)
-		// the media type may be followed by parameters ("; charset=UTF-8")
-		if val == "application/x-www-form-urlencoded" || strings.HasPrefix(val, "application/x-www-form-urlencoded;") {
+		// the media type may be followed by parameters ("; charset=UTF-8") and surrounded by
+		// optional white space
+		mediaType := val
+		if i := strings.IndexByte(mediaType, ';'); i >= 0 {
+			mediaType = mediaType[:i]
+		}
+		if strings.TrimSpace(mediaType) == "application/x-www-form-urlencoded" {
 			tx.variables.reqbodyProcessor.Set("URLENCODED")
 		} else if strings.HasPrefix(val, "multipart/form-data") {
 			tx.variables.reqbodyProcessor.Set("MULTIPART")
